@@ -503,6 +503,10 @@ def many_tiles(r):
     return out
 
 
+SPECIAL_TEXTS = ["\ufeffsession closed", "\ufeff", "a\ufeff", "bye\n", "bye\r\n", "bye\r", " bye", "bye ", "bye\0", "\0bye", "bye\t",
+                 "\U0001f600", "x\U0001f600", "user@host", "@", "\u200bz", "BYE", "bye.", "caf\u00e9", "e\u0301"]
+
+
 def custom_kinds():
     return [("custom", pt, mn) for pt in gen.CUSTOM_PTS for mn in PARSE_MINS]
 
@@ -575,6 +579,10 @@ def boundary_cfgs(kind, r, tier):
             for ns in (0, 1, 31):
                 out.append({"k": "bye", "padding": r.choice(pads_legal), "sources": list(range(ns)), "reason": gen.r_text(r, rl),
                             "reason_call": r.choice(["reason", "reason_owned"])})
+        # texts whose ends a well-meaning setter might touch, through BOTH setters
+        for txt in SPECIAL_TEXTS:
+            for call in ("reason", "reason_owned"):
+                out.append({"k": "bye", "padding": r.choice([0, 4]), "sources": [r.choice([0, 9])], "reason": txt.encode(), "reason_call": call, "_keep": True})
     elif kind in ("sr", "rr"):
         for nb in range(0, 34):
             c = (gen.cfg_sr if kind == "sr" else gen.cfg_rr)(r)
@@ -627,6 +635,14 @@ def boundary_cfgs(kind, r, tier):
                         {"k": "chunk", "ssrc": ssrc, "items": [{"type": r.choice([1, 2, 7, 9]), "value": gen.r_text(r, vl)}]}]}
                     if r.random() < 0.5: c["chunks"].reverse()
                     out.append(c)
+        # every standard item type with texts whose ends a well-meaning constructor might touch,
+        # added through both adders
+        for txt in SPECIAL_TEXTS:
+            for ty in ((1, 2, 3, 4, 5, 6, 7, 8) if full else (1, r.choice([2, 3, 4, 5, 6, 7]), 8)):
+                it = {"type": ty, "value": txt.encode()}
+                if ty == 8: it["prefix"] = r.choice([b"", b"x", txt.encode()[:3]])
+                out.append({"k": "sdes", "padding": r.choice([0, 4]), "_keep": True, "chunks": [
+                    {"k": "chunk", "ssrc": gen.r_u32(r), "items": [it, {"type": 2, "value": b"n"}][:r.choice([1, 2])]}]})
         for pl in (range(0, 257) if full else list(range(0, 6)) + [252, 253, 254, 255, 256]):
             for vl in ((0, 1, 2, 3, 254 - pl, 255 - pl) if full else (0, 1, 254 - pl, 255 - pl)):
                 if vl < 0: continue
